@@ -112,6 +112,12 @@ func (gc *primaryGC) gc(ctx context.Context, lowUsePercent int64, timeLimit time
 	gc.reclaimed = 0
 	vhook.Point("pgc.begin")
 	affectedSet, err := processFreeList(ctx, gc.freeList, gc.primary.basePath, gc.primary.maxFileSize)
+	// Remove all files in the affected set from the visited set, also when
+	// processing the freelist was interrupted, since the records marked so
+	// far are skipped as already deleted when the freelist is reprocessed.
+	for fileNum := range affectedSet {
+		delete(gc.visited, fileNum)
+	}
 	if err != nil {
 		if err == context.DeadlineExceeded {
 			return gc.reclaimed, err
@@ -129,11 +135,6 @@ func (gc *primaryGC) gc(ctx context.Context, lowUsePercent int64, timeLimit time
 	if relocate {
 		flSize, err := gc.freeList.StorageSize()
 		relocate = err == nil && flSize == 0
-	}
-
-	// Remove all files in the affected set from the visited set.
-	for fileNum := range affectedSet {
-		delete(gc.visited, fileNum)
 	}
 
 	header, err := readHeader(gc.primary.headerPath)
@@ -413,7 +414,7 @@ func processFreeList(ctx context.Context, freeList *freelist.FreeList, basePath 
 
 		for {
 			if ctx.Err() != nil {
-				return nil, ctx.Err()
+				return affectedSet, ctx.Err()
 			}
 			free, err := flIter.Next()
 			if err != nil {
